@@ -300,6 +300,41 @@ def lean_errors(output):
     return errs
 
 
+def project_imports(module, seen=None):
+    """Transitive closure of the `import GivaroModel.…` lines of a module of this project (the module itself included)."""
+    seen = set() if seen is None else seen
+    if module in seen:
+        return seen
+    path = os.path.join(LEAN_DIR, module.replace(".", "/") + ".lean")
+    if not os.path.exists(path):
+        return seen
+    seen.add(module)
+    with open(path) as fh:
+        for line in fh:
+            m = re.match(r"\s*import\s+(GivaroModel\.\S+)", line)
+            if m:
+                project_imports(m.group(1), seen)
+            elif line.strip() and not line.startswith("import") and not line.startswith("--") and not line.startswith("/-"):
+                if re.match(r"\s*(namespace|open|def|theorem|set_option|section|structure|inductive|abbrev|@\[|/--)", line):
+                    break
+    return seen
+
+
+def leancheck(modules, jobs=4):
+    """Re-check the compiled .olean of each module (and of every module of this project it imports) with `leanchecker`, the
+    toolchain's independent kernel re-checker.  Returns {module: (ok, tail of output)}."""
+    import concurrent.futures as cf
+    todo = set()
+    for m in modules:
+        project_imports(m, todo)
+
+    def one(m):
+        rc, o, e = sh(["lake", "env", "leanchecker", m], cwd=LEAN_DIR, timeout=3600)
+        return m, (rc == 0, (o + e)[-800:])
+    with cf.ThreadPoolExecutor(jobs) as ex:
+        return dict(ex.map(one, sorted(todo)))
+
+
 def print_axioms(module, theorems):
     """Run `#print axioms` on each theorem; returns {theorem: set(axioms)} ."""
     if not theorems:
